@@ -19,7 +19,7 @@ pub fn info() -> PropInfo {
     PropInfo {
         id: "C13",
         level: "exploration",
-        rule: "Streams: `grid` = for each LineEncoding tuple (all 24 valid (line_base, line_range) pairs of line_base {-128,-5,-3,-1,0} x line_range {1,2,12,14,127,128,255}, rotated over min_inst_len {1,2,4} x max_ops {1,2,4}, versions 2-5, both formats, address sizes 4/8, both byte orders; 12 tuples in the quick tier, 48 in the thorough tier) the complete grid (line advance -40..40 quick / -300..300 thorough) x (operation advance 0..300 quick / 0..600 thorough), each pair written as its own sequence (set_address, base row with op_index alternating between 0 and max_ops-1, advanced row, end_sequence) through begin_sequence/row()/generate_row/end_sequence, serialised with LineProgram::write and read back with read::DebugLine; every row is compared in every field. `rand` = random programs with 1-4 sequences, 0-12 rows each, every row field varied (boundary values for line/column/isa/discriminator, files from a table with duplicate names in different directories and duplicate add_file/add_directory calls with and without FileInfo), sequence starts through begin_sequence(Some/None), set_address or implicitly, DW_LNE_set_address in the middle of a sequence, end_sequence with an op_index, address offsets up to the top of the address space, line_range up to 255, max_ops up to 255; timestamps/sizes/MD5/embedded source with all four file_has_* flags, strings inline / .debug_line_str / .debug_str (independently for directories, files and sources), versions 2-5 x formats x address sizes 1/2/4/8 x byte orders; written standalone (LineProgram::write, optionally as the second program of the section), inside a unit (write::Dwarf unit with DW_AT_stmt_list, read through read::Dwarf::unit) or through write::Dwarf::line_programs; rows, header parameters, include_directories, file_names and file()/directory() lookups (strings resolved through Dwarf::attr_line_string) are compared with what was generated. `reject` = configurations the writer cannot represent (max_ops > 1 before version 4, string references before version 5): Err expected. A case is non-trivial when at least one row is generated; distinct by digest of the generated program description (grid: bijection with the index).",
+        rule: "Streams: `grid` = for each LineEncoding tuple (all 24 valid (line_base, line_range) pairs of line_base {-128,-5,-3,-1,0} x line_range {1,2,12,14,127,128,255}, rotated over min_inst_len {1,2,4} x max_ops {1,2,4}, versions 2-5, both formats, address sizes 4/8, both byte orders; 12 tuples in the quick tier, 48 in the thorough tier) the complete grid (line advance -40..40 quick / -300..300 thorough) x (operation advance 0..300 quick / 0..600 thorough), each pair written as its own sequence (set_address, base row with op_index alternating between 0 and max_ops-1, advanced row, end_sequence) through begin_sequence/row()/generate_row/end_sequence, serialised with LineProgram::write and read back with read::DebugLine; every row is compared in every field. `rand` = random programs with 1-4 sequences, 0-12 rows each, every row field varied, row() driven either by assigning every field or lazily by assigning only the fields that differ from its documented state (boundary values for line/column/isa/discriminator, files from a table with duplicate names in different directories and duplicate add_file/add_directory calls with and without FileInfo), sequence starts through begin_sequence(Some/None), set_address or implicitly, DW_LNE_set_address in the middle of a sequence, end_sequence with an op_index, address offsets up to the top of the address space, line_range up to 255, max_ops up to 255; timestamps/sizes/MD5/embedded source with all four file_has_* flags, strings inline / .debug_line_str / .debug_str (independently for directories, files and sources), versions 2-5 x formats x address sizes 1/2/4/8 x byte orders; written standalone (LineProgram::write, optionally as the second program of the section), inside a unit (write::Dwarf unit with DW_AT_stmt_list, read through read::Dwarf::unit) or through write::Dwarf::line_programs; rows, header parameters, include_directories, file_names and file()/directory() lookups (strings resolved through Dwarf::attr_line_string) are compared with what was generated. `reject` = configurations the writer cannot represent (max_ops > 1 before version 4, string references before version 5): Err expected. A case is non-trivial when at least one row is generated; distinct by digest of the generated program description (grid: bijection with the index).",
         assumptions: &[
             "row fields of the end_sequence row other than address and op_index are not compared (DWARF: not meaningful; the writer API only takes address_offset and op_index for it)",
             "rows following a set_address in the middle of a sequence continue at address + (address_offset - previous row's address_offset), as documented for ConvertLineProgram",
@@ -283,28 +283,71 @@ fn build(s: &Spec, t: &mut Tables<'_>) -> (w::LineProgram, Result<(), String>) {
             }
         }
     }
+    // every other program drives `row()` lazily (see below); the choice is a function of the
+    // case description only
+    let lazy = (s.acts.len() + s.adds.len()) % 2 == 1;
+    let initial = GRow { line: 1, is_stmt: s.le.default_is_stmt, ..GRow::default() };
+    let mut shadow = initial;
     for a in &s.acts {
         match a {
             Act::Begin(x) => p.begin_sequence(x.map(w::Address::Constant)),
             Act::SetAddress(x) => p.set_address(w::Address::Constant(*x)),
             Act::Row(g) => {
                 let r = p.row();
-                r.address_offset = g.off;
-                r.op_index = g.op_index;
                 r.file = file_ids[g.file];
-                r.line = g.line;
-                r.column = g.column;
-                r.discriminator = g.disc;
-                r.is_statement = g.is_stmt;
-                r.basic_block = g.bb;
-                r.prologue_end = g.pe;
-                r.epilogue_begin = g.eb;
-                r.isa = g.isa;
+                if lazy {
+                    // rely on the documented state of `row()`: generate_row clears
+                    // discriminator / basic_block / prologue_end / epilogue_begin and keeps the
+                    // rest, end_sequence resets everything; assign only what differs from it
+                    if g.off != shadow.off {
+                        r.address_offset = g.off;
+                    }
+                    if g.op_index != shadow.op_index {
+                        r.op_index = g.op_index;
+                    }
+                    if g.line != shadow.line {
+                        r.line = g.line;
+                    }
+                    if g.column != shadow.column {
+                        r.column = g.column;
+                    }
+                    if g.disc != shadow.disc {
+                        r.discriminator = g.disc;
+                    }
+                    if g.is_stmt != shadow.is_stmt {
+                        r.is_statement = g.is_stmt;
+                    }
+                    if g.bb != shadow.bb {
+                        r.basic_block = g.bb;
+                    }
+                    if g.pe != shadow.pe {
+                        r.prologue_end = g.pe;
+                    }
+                    if g.eb != shadow.eb {
+                        r.epilogue_begin = g.eb;
+                    }
+                    if g.isa != shadow.isa {
+                        r.isa = g.isa;
+                    }
+                } else {
+                    r.address_offset = g.off;
+                    r.op_index = g.op_index;
+                    r.line = g.line;
+                    r.column = g.column;
+                    r.discriminator = g.disc;
+                    r.is_statement = g.is_stmt;
+                    r.basic_block = g.bb;
+                    r.prologue_end = g.pe;
+                    r.epilogue_begin = g.eb;
+                    r.isa = g.isa;
+                }
                 p.generate_row();
+                shadow = GRow { disc: 0, bb: false, pe: false, eb: false, ..*g };
             }
             Act::End { off, op_index } => {
                 p.row().op_index = *op_index;
                 p.end_sequence(*off);
+                shadow = initial;
             }
         }
     }
